@@ -82,6 +82,7 @@ struct Options {
     std::string kissat = "";
     int dedupFailures = 1;
     bool noSlice = false;
+    bool symbolicEntropy = false;
     std::string dumpDir; bool dumpAll = false;
     bool profile = false;
     std::map<std::string, uint64_t> fixedChoice;   // --fix name=value: nixsym_choice(name, n) returns value without forking
@@ -114,6 +115,7 @@ public:
     uint64_t assertsChecked = 0, assertsSymbolic = 0, pathsWithSymAssert = 0;
     std::vector<std::string> samplePaths;
     std::vector<std::vector<std::string>> concreteTraces;
+    std::vector<std::vector<std::string>> pathTraces;
     bool inconclusive = false; std::string inconclusiveWhy;
     int nextStateId = 1;
     std::chrono::steady_clock::time_point t0;
